@@ -23,7 +23,8 @@ pub fn check() -> Check {
         rule: "G1: breadth-first closure of a list model of the history for buffers of 0..=14 (quick) / 0..=17 (thorough) bytes over the lines {a, b, e-acute, ab, 'a b', bitcoin sign, abc, empty, a 12-byte line}; every (state, op) edge - push of each line, older, newer - is replayed on a fresh real History: \
                return value, raw buffer content (hook) and navigation position compared. G2: random op sequences for buffers of 0..=40 bytes with lines of 0..=45 bytes (beyond the buffer) and frequent duplicates. \
                G3: Cli sessions (submit / Up / Down / edit then submit, command buffer larger and smaller than the history buffer), each ending with an Up-walk to the oldest entry and a Down-walk back; the recalled line, the raw buffer and the position are compared after every key. \
-               Non-trivial = the sequence contains an eviction or a mid-list duplicate followed by navigation; distinct by op sequence.",
+               G4: large buffers (250..262, 500..3000, 65530..65542, 70000, 131080 bytes) filled beyond capacity, walked to the oldest entry and back, with re-submissions near both ends. \
+               Non-trivial = the sequence contains an eviction or a mid-list duplicate followed by navigation (every G4 case counts); distinct by op sequence.",
         assumptions: &[
             "the navigation position after an Enter that records nothing (empty or oversize line) may stay or reset; Down while not navigating may leave the line or empty it: both are accepted, the model adopts what is observed",
             "editing a recalled line does not move the navigation position",
